@@ -49,11 +49,13 @@ package k8s
 //@   loop 2 invariant len(p.eventBuf) >= 1 && (p.maxEventSize == 0 || (p.maxEventSize >= 3 && len(p.eventBuf) <= p.maxEventSize - 2)) && event != nil
 //@   ensures len(p.eventBuf) >= 1
 //@   ensures p.maxEventSize == 0 || len(p.eventBuf) <= p.maxEventSize - 2
+//@   ensures event.kind == pipeline.EventKindTimeout ==> result == pipeline.ActionDiscard && len(p.eventBuf) == 1
 //@   assert at "if !isEnd && !shouldSplit" isEnd ==> logFragmentLen >= 3 && logFragment[logFragmentLen - 2] == 'n' && logFragment[logFragmentLen - 3] == '\\'
 //@   assert at "if !isEnd && !shouldSplit" logFragmentLen >= 5 && logFragment[logFragmentLen - 3] == '\\' && logFragment[logFragmentLen - 4] == '\\' && logFragment[logFragmentLen - 5] != '\\' ==> !isEnd
 //@   assert at "if !isEnd && !shouldSplit" logFragmentLen >= 4 && logFragment[logFragmentLen - 2] == 'n' && logFragment[logFragmentLen - 3] == '\\' && logFragment[logFragmentLen - 4] != '\\' ==> isEnd
 //@   callee IsTimeoutKind() (r)
 //@     pure
+//@     ensures r == (event.kind == pipeline.EventKindTimeout)
 //@   callee AddFieldNoAlloc(r, n)
 //@     preserves MultilineAction, Event
 //@   callee MutateToString(s)
